@@ -2634,6 +2634,25 @@ func (g *gen) systematicPeer(kind int) {
 		for k := 0; k < 4; k++ {
 			one(alt{kind: "wire", a: uint64(g.r.Intn(4096)), b: uint64(g.r.Intn(8))})
 		}
+		// mixed batches: one message carrying a valid entry for one validator and an invalid entry
+		// for another, in both positions (the whole set must be refused; no entry may reach the
+		// subscriber unverified)
+		if g.cfg.m >= 2 && kind != kRaw {
+			other := (val + 1 + g.r.Intn(g.cfg.m-1)) % g.cfg.m
+			oshare := 1 + g.r.Intn(g.cfg.n)
+			bads := []alt{g.mkAlt(signAlts[g.r.Intn(len(signAlts))], other, oshare, objEpoch, kindDom[kind]),
+				{kind: "idx", a: uint64(1 + (oshare % g.cfg.n))}, {kind: "key", a: uint64(g.r.Intn(4))}}
+			for bi, b := range bads {
+				good := base
+				bad := base
+				bad.val, bad.share, bad.alt = other, oshare, b
+				es := []entrySpec{good, bad}
+				if bi%2 == 1 {
+					es = []entrySpec{bad, good}
+				}
+				g.peer(peerOp{ty: ty, slot: slot, nsub: 1 + g.r.Intn(2), seed: g.seed(), malt: "none", entries: es})
+			}
+		}
 		// duty outside the gater's window, invalid / deprecated / unsupported duty types, other type
 		past := uint64(g.cfg.cur+g.cfg.allowed+1)*spe + uint64(g.r.Intn(40))
 		g.peer(peerOp{ty: ty, slot: past, nsub: 1, seed: g.seed(), malt: "none", entries: []entrySpec{base}})
